@@ -24,7 +24,9 @@ from props import PROPS
 
 
 # properties for which replay/src/oracle.rs has an executable specification + enumerator (bounded refutation search)
-SEARCHABLE = {"C02": "all valid references over {a : / ? # @} up to 6 bytes (both families)",
+SEARCHABLE = {"C01": "all byte strings over {a : / % C3 A9 FF} up to 4 bytes: owned constructors and from_vec agree with the borrowed `new`, keep the text, return the input on failure",
+              "C06": "every reference over {a : / ? # .} up to 4 bytes x 7 bases: RFC 3986 5.2.2 selection of scheme / authority / query / fragment (and of the path where the table copies it), validity of the result, agreement of the six entry points of both families; the merged / dot-segment-free path is NOT compared (recorded deviations)",
+              "C02": "all valid references over {a : / ? # @} up to 6 bytes (both families)",
               "C03": "all valid authorities over {a : @ [ ] 1} up to 6 bytes (both families)",
               "C20": "the C02, C03 and C12 enumerations (placement of the returned slices inside the input)",
               "C12": "all valid paths over {a / .} up to 7 bytes (forward, backward and alternating iteration, path queries)",
@@ -208,13 +210,14 @@ def main():
             known_hits.append((hit, v))
         else:
             real.append(v)
-    # bounded refutation search on the real code: only after a failed or undecided obligation (to obtain a concrete failing
-    # input), or as extra exploration in the thorough tier. A discrepancy is a refutation with a replayable input; finding
-    # none changes nothing (an undecided run stays undecided).
+    # bounded refutation search on the real code, on every run: it gives a failed obligation its concrete failing input,
+    # can refute where the verifier is undecided, and stands in (BOUNDED, never counted as proved) for the thin facade
+    # wrappers that no contract reaches. A discrepancy is a refutation with a replayable input; finding none changes
+    # nothing (an undecided run stays undecided, a proof stays exactly as strong as its obligations).
     search_info = None
-    if pid in SEARCHABLE and (real or undecided or a.tier == "thorough"):
+    if pid in SEARCHABLE:
         found, err = refutation_search(pid)
-        search_info = {"ran": True, "bounded": True, "bound": SEARCHABLE[pid], "why": "failed obligation" if real else ("undecided obligation" if undecided else "thorough tier"), "discrepancies": len(found), "error": err}
+        search_info = {"ran": True, "bounded": True, "bound": SEARCHABLE[pid], "why": "failed obligation" if real else ("undecided obligation" if undecided else "every run"), "discrepancies": len(found), "error": err}
         for d in found:
             real.append({"obligation": "refutation-search::" + d["what"], "message": "the real crate returns %s, the specification demands %s" % (d["real"], d["expected"]), "kind": "bounded-search",
                          "function": None, "verifier_output": "", "input": {"op": "search", "prop": pid, "inputs_hex": d["inputs_hex"], "inputs_text": d["inputs_text"], "real": d["real"], "expected": d["expected"]}})
